@@ -143,9 +143,6 @@ Proof.
   - destruct (_ && _); [|reflexivity]. destruct (forallb is_useflag_char _); reflexivity.
 Qed.
 
-Lemma is_eq n c : is n c = true -> c = nb n.
-Proof. unfold is. intros H. apply N.eqb_eq in H. rewrite <- H. symmetry. apply nb_bn. Qed.
-
 Lemma last_byte_split (tok : bytes) : tok <> [] -> tok = removelast tok ++ [last_byte tok].
 Proof.
   intros Hne. unfold last_byte. destruct (rev tok) as [|x l] eqn:E.
